@@ -97,15 +97,24 @@ def who_references(rep, callee_re, ident, subdir="libs/pika"):
     return out, cpps, hdrs
 
 
+_IMPORTING = set()
+
+
 def import_rules(rep, tier, module, wanted, new_id, text, only=None):
     """Evaluate another property's rule module and adopt the instances of the rules in `wanted` under
     the id `new_id` of this property (the construct belongs to both properties' mechanisms)."""
     import importlib
     from engine.core import Report
+    rep.rule(new_id, text)
+    if module in _IMPORTING:
+        return 0            # two properties that adopt rules from each other: the inner evaluation is already under way up-stack
     mod = importlib.import_module("rules." + module)
     sub = Report(module)
-    mod.run(sub, tier)
-    rep.rule(new_id, text)
+    _IMPORTING.add(module)
+    try:
+        mod.run(sub, tier)
+    finally:
+        _IMPORTING.discard(module)
     n = sum(sub.instances.get(w, 0) for w in wanted)
     bad = [v for v in sub.violations if v.rule in wanted and (only is None or only(str(v.fn) + " " + str(getattr(v, "full", ""))))]
     if only is not None:
